@@ -254,7 +254,7 @@ static RunResult run_once(const std::vector<Op> &hist, const Op *op, int K, std:
     g_last_events = 0;
     apply(w, *op);
     g_final = false;
-    g_fault_seen = op->f > 0 && W().exc && (W().exc_kind == 3 || W().exc_kind == 4);
+    g_fault_seen = op->f > 0 && vf::L().faults_thrown > 0;  // thrown; the callee may have swallowed it (std::vector::shrink_to_fit)
     r.events = g_last_events;
     observe<>(w);
     r.key_after = key_of(w);
